@@ -211,3 +211,160 @@ func TestC15StringKeys(t *testing.T) {
 		}
 	})
 }
+
+// ---- composite primary key without a prioritized field ---------------------------------------
+//
+// With a composite key and no auto-increment member the schema has no
+// prioritized primary field: FindInBatches cannot move a cursor and refuses with
+// ErrPrimaryKeyRequired as soon as a second batch would be needed. What the
+// statement needs either way: every matching row exactly once, or an error.
+
+const compositeRule = "C15 composite key: 0..12 rows of a model with primary key (g, h) and no auto-increment member, optional condition h >= k, " +
+	"batch sizes 1..5: FindInBatches either returns an error or delivers every row Find returns exactly once (batches no larger than requested); " +
+	"Find and Count agree with the reference. non-trivial = more matching rows than the batch size and a group of rows with equal g that " +
+	"straddles the first batch boundary in (g, h) order; distinct = canonical rendering"
+
+type Pair struct {
+	G int `gorm:"primaryKey;autoIncrement:false"`
+	H int `gorm:"primaryKey;autoIncrement:false"`
+	V string
+}
+
+func (Pair) TableName() string { return "pairs" }
+
+func pairsString(ps []Pair) string {
+	parts := make([]string, len(ps))
+	for i, p := range ps {
+		parts[i] = fmt.Sprintf("(%d,%d,%q)", p.G, p.H, p.V)
+	}
+	return "[" + strings.Join(parts, " ") + "]"
+}
+
+func TestC15CompositeKey(t *testing.T) {
+	evid.Rule(compositeRule)
+	rapid.Check(t, func(rt *rapid.T) {
+		var all []Pair
+		for g := 0; g < 3; g++ {
+			for h := 0; h < 5; h++ {
+				all = append(all, Pair{G: g + 1, H: h + 1})
+			}
+		}
+		all = rapid.Permutation(all).Draw(rt, "pairs")
+		n := rapid.IntRange(0, 12).Draw(rt, "size")
+		rows := all[:n]
+		for i := range rows {
+			rows[i].V = rapid.SampledFrom(dPool).Draw(rt, "v")
+		}
+		minH := rapid.IntRange(0, 3).Draw(rt, "min-h")
+		batch := rapid.IntRange(1, 5).Draw(rt, "batch")
+		reuse := rapid.Bool().Draw(rt, "reuse")
+		desc := fmt.Sprintf("composite pairs=%s h>=%d batch=%d reuse=%v", pairsString(rows), minH, batch, reuse)
+		evid.Journal(desc)
+
+		var matched []Pair
+		for _, p := range rows {
+			if p.H >= minH {
+				matched = append(matched, p)
+			}
+		}
+		sort.Slice(matched, func(i, j int) bool {
+			if matched[i].G != matched[j].G {
+				return matched[i].G < matched[j].G
+			}
+			return matched[i].H < matched[j].H
+		})
+		straddle := len(matched) > batch && matched[batch-1].G == matched[batch].G
+		cl := []string{"composite:matched-" + bucket(len(matched)), fmt.Sprintf("composite:batch-%d", batch)}
+		if len(matched) >= batch {
+			cl = append(cl, "composite:second-batch-needed")
+		}
+		if straddle {
+			cl = append(cl, "composite:equal-leading-key-across-boundary")
+		}
+
+		d := testdb.Open(testdb.Options{})
+		defer d.Close()
+		if _, err := d.SQL.Exec("CREATE TABLE pairs (v text NOT NULL, h integer NOT NULL, g integer NOT NULL, PRIMARY KEY (g, h))"); err != nil {
+			rt.Fatalf("harness: %v", err)
+		}
+		for _, p := range rows {
+			if _, err := d.SQL.Exec("INSERT INTO pairs (g, h, v) VALUES (?, ?, ?)", p.G, p.H, p.V); err != nil {
+				rt.Fatalf("harness: %v", err)
+			}
+		}
+		chain := func() *gorm.DB {
+			db := d.DB
+			if minH > 0 {
+				db = db.Where("h >= ?", minH)
+			}
+			if reuse {
+				db = db.Session(&gorm.Session{})
+			}
+			return db
+		}
+		fail := func(format string, a ...interface{}) {
+			rt.Fatalf("C15 violated: %s, case: %s", fmt.Sprintf(format, a...), desc)
+		}
+		var viaFind []Pair
+		if err := chain().Order("g, h").Find(&viaFind).Error; err != nil {
+			fail("Find: unexpected error %v", err)
+		}
+		if pairsString(viaFind) != pairsString(matched) {
+			fail("Find returned %s, reference %s", pairsString(viaFind), pairsString(matched))
+		}
+		var cnt int64
+		if err := chain().Model(&Pair{}).Count(&cnt).Error; err != nil || int(cnt) != len(matched) {
+			fail("Count = %d (error %v), Find returns %d rows", cnt, err, len(matched))
+		}
+		var (
+			dest   []Pair
+			concat []Pair
+			sizes  []int
+		)
+		res := chain().FindInBatches(&dest, batch, func(tx *gorm.DB, nr int) error {
+			if len(concat)+len(dest) > len(rows) {
+				return errRunaway
+			}
+			concat = append(concat, dest...)
+			sizes = append(sizes, len(dest))
+			return nil
+		})
+		outcome := "composite:complete"
+		if res.Error != nil {
+			outcome = "composite:refused-with-error"
+		}
+		evid.Case(desc, straddle, nil, append(cl, outcome)...)
+		if errors.Is(res.Error, errRunaway) {
+			fail("FindInBatches(batch=%d) delivered more rows than the table holds: %s in batches %v", batch, pairsString(concat), sizes)
+		}
+		for i, s := range sizes {
+			if s > batch || s == 0 {
+				fail("FindInBatches(batch=%d): batch %d holds %d rows", batch, i+1, s)
+			}
+		}
+		seen := map[[2]int]bool{}
+		for _, p := range concat {
+			k := [2]int{p.G, p.H}
+			if seen[k] {
+				fail("FindInBatches(batch=%d) delivered (%d,%d) twice: %s in batches %v", batch, p.G, p.H, pairsString(concat), sizes)
+			}
+			seen[k] = true
+		}
+		if res.Error != nil {
+			return // a refusal is an outcome
+		}
+		got := append([]Pair(nil), concat...)
+		sort.Slice(got, func(i, j int) bool {
+			if got[i].G != got[j].G {
+				return got[i].G < got[j].G
+			}
+			return got[i].H < got[j].H
+		})
+		if pairsString(got) != pairsString(matched) {
+			fail("FindInBatches(batch=%d) returned no error but delivered %s in batches %v; Find returns %s", batch, pairsString(concat), sizes, pairsString(matched))
+		}
+		if int(res.RowsAffected) != len(matched) {
+			fail("FindInBatches(batch=%d): RowsAffected=%d but %d rows delivered", batch, res.RowsAffected, len(matched))
+		}
+	})
+}
